@@ -36,6 +36,7 @@ type Result struct {
 	RTDiff  string // path of the first difference when RT == "0"
 	JSONDif string // same for JSONRT == "0"
 	SelfErr string // non-empty if the text self-check failed
+	Idents  map[string]int // identifications needed by the binary round trip (RT == "1")
 }
 
 func (r Result) Line() string {
@@ -110,12 +111,18 @@ func ProbeOne(cdc codec.Codec, e TypeEntry, v Msg, omit bool) Result {
 		case err != nil:
 			res.RT = "err:" + clean(err.Error(), 120)
 		default:
-			if d := diffMod(reflect.ValueOf(v), reflect.ValueOf(fresh), ""); d != "" {
+			var df differ
+			if d := df.diff(reflect.ValueOf(v), reflect.ValueOf(fresh), ""); d != "" {
 				res.RT = "0"
 				res.RTDiff = d
 			} else {
 				res.RT = "1"
 				res.Strict = reflect.DeepEqual(v, fresh)
+				res.Idents = df.idents
+				if res.Strict != (len(df.idents) == 0) {
+					// DeepEqual and the identification bookkeeping disagree
+					res.Idents = map[string]int{"UNEXPLAINED(strict/ident mismatch)": 1}
+				}
 			}
 		}
 	}
@@ -137,7 +144,7 @@ func ProbeOne(cdc codec.Codec, e TypeEntry, v Msg, omit bool) Result {
 		case err != nil:
 			res.JSONRT = clean("err:unmarshal:"+err.Error(), 120)
 		default:
-			if d := diffMod(reflect.ValueOf(v), reflect.ValueOf(fresh2), ""); d != "" {
+			if d := new(differ).diff(reflect.ValueOf(v), reflect.ValueOf(fresh2), ""); d != "" {
 				res.JSONRT = "0"
 				res.JSONDif = d
 			} else {
@@ -150,7 +157,7 @@ func ProbeOne(cdc codec.Codec, e TypeEntry, v Msg, omit bool) Result {
 
 type typeStats struct {
 	n, marshalErr, rtBad, strict0, jsonBad, selfBad int
-	maxLine                                        int
+	maxLine                                         int
 }
 
 type class struct {
@@ -189,26 +196,27 @@ func typeSeed(seed int64, name string) int64 {
 
 // Run executes the probe.
 func Run(cfg Config) error {
-	cdc := hubapp.DefaultEncodingConfig().Codec
+	enc := hubapp.DefaultEncodingConfig()
+	cdc := enc.Codec
 
-	all, problems := Types(cfg.Log)
+	all, problems := Types(enc.InterfaceRegistry, cfg.Log)
 	var types []TypeEntry
 	for _, e := range all {
 		if cfg.Filter == "" || strings.Contains(e.Name, cfg.Filter) {
 			types = append(types, e)
 		}
 	}
-	nExplicit := 0
+	nCore := 0
 	for _, e := range types {
-		if e.Explicit {
-			nExplicit++
+		if e.Core {
+			nCore++
 		}
 	}
-	fmt.Fprintf(cfg.Log, "probe19: seed=%d n=%d filter=%q; covering %d types (%d in the explicit table, %d registry-only; %d registered sentinel.* types in total); %d enumeration problems\n",
-		cfg.Seed, cfg.N, cfg.Filter, len(types), nExplicit, len(types)-nExplicit, len(all), problems)
+	fmt.Fprintf(cfg.Log, "probe19: seed=%d n=%d filter=%q; covering %d types (%d core '*', %d other: old versions, queries, events; %d registered sentinel.* types in total); %d enumeration problems\n",
+		cfg.Seed, cfg.N, cfg.Filter, len(types), nCore, len(types)-nCore, len(all), problems)
 	for _, e := range types {
 		mark := " "
-		if e.Explicit {
+		if e.Core {
 			mark = "*"
 		}
 		fmt.Fprintf(cfg.Log, "probe19: type %s %s\n", mark, e.Name)
@@ -223,6 +231,7 @@ func Run(cfg Config) error {
 	for i, e := range types {
 		gens[i] = NewGen(typeSeed(cfg.Seed, e.Name))
 	}
+	identLines := map[string]int{} // identification -> number of lines that needed it
 	classes := map[string]*class{}
 	addClass := func(key, line string) {
 		c := classes[key]
@@ -283,6 +292,9 @@ func Run(cfg Config) error {
 		if !res.Strict {
 			st.strict0++
 		}
+		for id := range res.Idents {
+			identLines[id]++
+		}
 		if res.JSONRT != "1" {
 			st.jsonBad++
 			r := res.JSONRT
@@ -314,6 +326,16 @@ func Run(cfg Config) error {
 		}
 	}
 	fmt.Fprintf(cfg.Log, "probe19: sum %-58s %4d %4d %4d %4d %4d %4d %6d\n", "TOTAL", tot.n, tot.marshalErr, tot.rtBad, tot.strict0, tot.jsonBad, tot.selfBad, tot.maxLine)
+
+	fmt.Fprintf(cfg.Log, "\nprobe19: identifications needed by binary round trips (lines with rt=1 strict=0, a line may need several):\n")
+	var ids []string
+	for id := range identLines {
+		ids = append(ids, id)
+	}
+	sort.Strings(ids)
+	for _, id := range ids {
+		fmt.Fprintf(cfg.Log, "probe19: ident %-48s %d\n", id, identLines[id])
+	}
 
 	keys := make([]string, 0, len(classes))
 	for k := range classes {
